@@ -62,6 +62,8 @@ def check_source(case, src, info, grids_refs, av_range, labels, float32):
 
 def check_one(ref, av, sc, chi2, what, float32):
     margin = 1e-5 if float32 else 1e-9
+    if ref.at_distance(0, margin) is None:
+        return 'skip'  # no fitted point with a non-zero extinction coefficient: outside the domain
     if not (av == av and sc == sc and chi2 == chi2):
         return ('c02:nan', '%s: NaN in result (av=%r sc=%r chi2=%r)' % (what, av, sc, chi2))
     if not (ref.lo - 1e-12 <= av <= ref.hi + 1e-12):
@@ -78,11 +80,7 @@ def check_one(ref, av, sc, chi2, what, float32):
     r = rows[j]
     slack = 0.
     if float32:
-        delta = 1e-6
-        for w, rr, kk in r['fit']:
-            res = abs(float(rr) - av * float(kk))
-            slack += float(w) * (2 * res * delta + delta * delta)
-        slack *= 2
+        slack = of.float32_slack(ref.bands, r['logm'], ref.k, av, 0.)
     av_tol = r['av_tol'] if not float32 else None
     if av_tol is not None and abs(av - r['av']) > av_tol + 1e-9 * abs(r['av']):
         return ('c02:av_not_optimal', '%s: at d=%r kpc reported A_V %r, clipped least-squares optimum %r' % (
